@@ -221,6 +221,48 @@ func c20(c *Ctx) {
 			}
 		}
 		r.Check(okFix, "R20.H", "hosts:scheme-less-recovery-first", c.pos(hf.Pos()), "fixURLHost(u) runs before the host test")
+		// the recovered host is the text before the FIRST slash of the scheme-less link (t.me/joinchat/TOKEN has
+		// host t.me, not t.me/joinchat): the cut position comes from a first-occurrence search of "/" in u.Path
+		if fx := c.fn("R20.H", load.DeepPkg, "", "fixURLHost"); fx != nil {
+			firstOcc := map[string]bool{"strings.Index": true, "strings.IndexByte": true, "strings.IndexRune": true, "strings.IndexAny": true}
+			n, okCut, detail := 0, true, ""
+			for _, b := range fx.Blocks {
+				for _, in := range b.Instrs {
+					st, ok := in.(*ssa.Store)
+					if !ok {
+						continue
+					}
+					fa, ok := st.Addr.(*ssa.FieldAddr)
+					if !ok || !strings.HasSuffix(an.FieldName(fa.X.Type(), fa.Field), "URL.Host") {
+						continue
+					}
+					sl, ok := st.Val.(*ssa.Slice)
+					if !ok {
+						continue // the bare-host arm stores the whole path
+					}
+					n++
+					cut := sl.High
+					call, isCall := cut.(*ssa.Call)
+					switch {
+					case cut == nil:
+						okCut, detail = false, "the host is not cut at a position"
+					case !isCall || !firstOcc[an.CalleeName(call.Common())]:
+						name := "a computed value"
+						if isCall {
+							name = an.CalleeName(call.Common())
+						}
+						okCut, detail = false, "the cut position comes from "+name+", not from a first-occurrence search"
+					case len(call.Call.Args) != 2 || !strings.HasSuffix(tr.OriginString(call.Call.Args[0]), "URL.Path") || !isSlashConst(call.Call.Args[1]):
+						okCut, detail = false, "the search is not for \"/\" in u.Path"
+					}
+				}
+			}
+			if n == 0 {
+				r.Undecide("R20.H", "hosts:recovered-host-ends-at-first-slash", c.pos(fx.Pos()), "no store u.Host = u.Path[:i] found in fixURLHost")
+			} else {
+				r.Check(okCut, "R20.H", "hosts:recovered-host-ends-at-first-slash", c.pos(fx.Pos()), "u.Host = u.Path[:i] with i the first \"/\" of u.Path; "+detail)
+			}
+		}
 	}
 	// scheme arms
 	{
@@ -254,7 +296,7 @@ func c20(c *Ctx) {
 			allErr := true
 			for _, b := range tg.Blocks {
 				for _, in := range b.Instrs {
-					if ret, ok := in.(*ssa.Return); ok && len(ret.Results) == 2 && (!an.IsNilConst(ret.Results[0]) || an.IsNilConst(ret.Results[1])) {
+					if ret, ok := in.(*ssa.Return); ok && len(ret.Results) == 2 && (!an.IsNilConst(an.RetVal(ret, 0)) || an.IsNilConst(an.RetVal(ret, 1))) {
 						allErr = false
 					}
 				}
@@ -298,4 +340,18 @@ func c20(c *Ctx) {
 		r.Check(inv != "" && !strings.Contains(inv, "ToLower") && !strings.Contains(inv, "ToUpper"), "R20.L", "invite:verbatim", c.pos(hf.Pos()), "Invite ← "+inv)
 		r.Check(emptyGuards >= 2, "R20.L", "empty-variable-is-error", c.pos(hf.Pos()), sprintf("%d tests of a path variable against the empty string", emptyGuards))
 	}
+}
+
+func isSlashConst(v ssa.Value) bool {
+	k, ok := v.(*ssa.Const)
+	if !ok || k.Value == nil {
+		return false
+	}
+	if k.Value.Kind() == constant.String {
+		return constant.StringVal(k.Value) == "/"
+	}
+	if i, ok := constant.Int64Val(k.Value); ok {
+		return i == '/'
+	}
+	return false
 }
